@@ -83,9 +83,10 @@ theorem expr_safe (a : Ast) (h : a.SafeExpr) : Safe a.build := (Ast.build_sb a h
 /-- … so for such an expression the leaf part of every in-bounds integer point of the asserted polyhedron
     makes the model true: whatever an exact ILP solver returns is a valid configuration. -/
 theorem expr_sound (a : Ast) (x : String → Int) (i b s v ks m) (h : a.SafeExpr) (hb : a.build = .node i b s v ks m)
-    (hf : Free01 a.build) (hx : Box x a.build) (hr : ∀ r ∈ encode true a.build, r.sat x) :
+    (hx : Box x a.build) (hr : ∀ r ∈ encode true a.build, r.sat x) :
     evalPt x a.build = 1 := by
   have hs := expr_safe a h
+  have hf := Ast.build_free01 a h      -- constructors never pre-fix a sub-proposition
   rw [hb] at hs hf hx hr ⊢
   exact sound_active x i b s v ks m hs hf hx hr
 
